@@ -65,7 +65,16 @@ def acct (impl : String) : P Verdict := do
     (if anyErr then ":werr" else "")
   pure (verdictOf impl (render wModel) (some (render wSpec)) [] tag)
 
+/-- `C18.shut <kind> <workers> <frames before shutdown> <frames after shutdown>`: a dispatch call made after
+`shutdown()` is, in the pool model, a dispatch of a packet the pool does not route (`route = none`: nothing
+queued, `dropped` incremented, outcome Dropped) — `Props.C18Shutdown.accounting_with_shutdown`. With a
+queue larger than the number of frames every earlier call is queued. -/
+def shut (impl : String) : P Verdict := do
+  let kind ← tok; let _n ← nat; let pre ← nat; let post ← nat
+  let model := s!"qpre={pre} qpost=0 d={pre} x={post}"
+  pure (verdictOf impl model (some model) [] s!"shut:{kind}:{if pre == 0 then "none-before" else "some-before"}")
+
 def handlers : List (String × (String → P Verdict)) :=
-  [("C10.pool", pool), ("C18.acct", acct)]
+  [("C10.pool", pool), ("C18.acct", acct), ("C18.shut", shut)]
 
 end Huginn.Drv.C10
